@@ -87,6 +87,19 @@ def dictCheck (m : AsyncFix.Session.Msg) : Bool :=
   (requiredOf m.mtype).all (fun t => m.has t) &&
   m.tags.all fun p => p.1 == 10 || (memberOk m.mtype p.1 && valueOk p.1 p.2)
 
+/-- the structural part of `dictCheck`: known type, required members present, every tag allowed -/
+def dictStruct (m : AsyncFix.Session.Msg) : Bool :=
+  knownType m.mtype &&
+  (requiredOf m.mtype).all (fun t => m.has t) &&
+  m.tags.all fun p => p.1 == 10 || memberOk m.mtype p.1
+
+/-- `dictStruct` as a function of the message type and the tag list alone -/
+def structOk (mt : String) (tags : List Nat) : Bool :=
+  knownType mt && (requiredOf mt).all (fun t => tags.contains t) && tags.all fun t => t == 10 || memberOk mt t
+
+/-- the lexical part: every value passes `SchemaField.validate_value` -/
+def dictValues (m : AsyncFix.Session.Msg) : Bool := m.tags.all fun p => p.1 == 10 || valueOk p.1 p.2
+
 /-- the concrete schema argument: the dictionary check on the rendered message -/
 def dictSchema (m : RMsg) : Bool := dictCheck m.render
 
